@@ -9,6 +9,7 @@ import (
 
 	"github.com/nspcc-dev/neofs-node/pkg/local_object_storage/blobstor/common"
 	storagelog "github.com/nspcc-dev/neofs-node/pkg/local_object_storage/internal/log"
+	"github.com/nspcc-dev/neofs-node/pkg/util/verifhook"
 	apistatus "github.com/nspcc-dev/neofs-sdk-go/client/status"
 	oid "github.com/nspcc-dev/neofs-sdk-go/object/id"
 	"go.uber.org/zap"
@@ -157,6 +158,7 @@ func (c *cache) flushWorker(id int) {
 				zap.Stringer("first_object", addrs[0]),
 				zap.Error(err))
 		}
+		verifhook.Point("wc.flush.done")
 	}
 }
 
@@ -183,6 +185,7 @@ func (c *cache) flushSingle(addr oid.Address, ignoreErrors bool) error {
 		}
 		return err
 	}
+	verifhook.Point("wc.flush.afterRead")
 
 	err = c.storage.Put(addr, data)
 	if err != nil {
@@ -192,11 +195,13 @@ func (c *cache) flushSingle(addr oid.Address, ignoreErrors bool) error {
 		}
 		return err
 	}
+	verifhook.Point("wc.flush.afterMainPut")
 
 	err = c.delete(addr)
 	if err != nil && !errors.As(err, new(apistatus.ObjectNotFound)) {
 		c.log.Error("can't remove object from write-cache", zap.Error(err))
 	}
+	verifhook.Point("wc.flush.afterCacheDelete")
 
 	return nil
 }
@@ -216,6 +221,7 @@ func (c *cache) flushBatch(addrs []oid.Address) error {
 
 		objs[addr] = data
 	}
+	verifhook.Point("wc.flush.afterRead")
 
 	err := c.storage.PutBatch(objs)
 	if err != nil {
@@ -227,6 +233,7 @@ func (c *cache) flushBatch(addrs []oid.Address) error {
 		}
 		return err
 	}
+	verifhook.Point("wc.flush.afterMainPut")
 
 	for addr := range objs {
 		storagelog.Write(c.log,
@@ -238,6 +245,7 @@ func (c *cache) flushBatch(addrs []oid.Address) error {
 		if err != nil && !errors.As(err, new(apistatus.ObjectNotFound)) {
 			c.log.Error("can't remove object from write-cache", zap.Error(err))
 		}
+		verifhook.Point("wc.flush.afterCacheDelete")
 	}
 	return nil
 }
